@@ -1,9 +1,11 @@
 // C21 — imports are gated by the chain registry, the blacklist and the router start height.
 //
 // Main-net configuration (the router start-height gate of utils.CheckRouterStartBlock only exists there), 4
-// validators, three chains: A, B (vote router) and C (HSC router: one of the three gated routers, with a
-// synthetic MPT state so that complete valid imports from C exist). Breadth-first exploration (depth quick 5 /
-// thorough 7, from two initial states: nothing registered / everything registered) over the events
+// validators, four chains: A, B (vote router), C (HSC router: one of the three gated routers, with a
+// synthetic MPT state so that complete valid imports from C exist) and R (RIPPLE router, used as a destination
+// only: not account-based, the entrance hands over to ripple.MakeTransaction which builds the payment and bumps
+// the sequence; its registration includes the asset binding and a voted base fee). Breadth-first exploration (depth quick 4 /
+// thorough 6, from two initial states: nothing registered / everything registered) over the events
 //
 //	reg X            the quorum-completing approveRegisterSideChain (real governance path; for C followed by
 //	                 header_sync.SyncGenesisHeader of the synthetic genesis header)
@@ -24,13 +26,17 @@
 package main
 
 import (
+	"bytes"
 	"fmt"
+	"math/big"
 	"sort"
 	"strings"
 
+	"github.com/polynetwork/poly/common"
 	"github.com/polynetwork/poly/common/config"
 	"github.com/polynetwork/poly/core/types"
 	_ "github.com/polynetwork/poly/native/service"
+	"github.com/polynetwork/poly/native/service/governance/side_chain_manager"
 	"github.com/polynetwork/poly/native/service/utils"
 	"verif.local/engine/ev"
 	"verif.local/engine/lib/ccm"
@@ -45,17 +51,32 @@ const (
 	A     = 21
 	B     = 22
 	C     = 23
+	R     = 24 // RIPPLE-router chain: a non-account-based DESTINATION (ripple.MakeTransaction builds the payment)
 	nVal  = 4
 	maxK  = 7
 )
 
-var chains = []uint64{A, B, C}
-var cname = map[uint64]string{A: "A", B: "B", C: "C"}
-var cid = map[string]uint64{"A": A, "B": B, "C": C}
+var chains = []uint64{A, B, C, R}
+var cname = map[uint64]string{A: "A", B: "B", C: "C", R: "R"}
+var cid = map[string]uint64{"A": A, "B": B, "C": C, "R": R}
+
+// ripple destination: the multi-sign vault (= asset address = lock proxy of R on R) and a payee
+var rVault = bytes.Repeat([]byte{0x5a}, 20)
+var rPayee = bytes.Repeat([]byte{0x9e}, 20)
+
+func rippleExtra() []byte {
+	x := &side_chain_manager.RippleExtraInfo{Operator: ccm.RippleOperator.Addr, Sequence: 1, Quorum: 1, SignerNum: 1, Pks: [][]byte{{2}}, ReserveAmount: big.NewInt(1)}
+	s := common.NewZeroCopySink(nil)
+	x.Serialization(s)
+	return s.Bytes()
+}
 
 func router(c uint64) uint64 {
 	if c == C {
 		return utils.HSC_ROUTER
+	}
+	if c == R {
+		return utils.RIPPLE_ROUTER
 	}
 	return utils.VOTE_ROUTER
 }
@@ -110,14 +131,22 @@ func (s state) clone() state {
 }
 
 func msg(x, y uint64, k int) []byte {
+	if y == R { // what ripple.MakeTransaction expects: to-contract = asset; args = asset ++ payee ++ amount
+		a := common.NewZeroCopySink(nil)
+		a.WriteVarBytes(rVault)
+		a.WriteVarBytes(rPayee)
+		a.WriteUint64(1_000_000)
+		return ccm.MsgBytes(ccm.Msg([]byte{0xe0, byte(x), byte(y), byte(k)}, []byte{byte(x), byte(y), byte(k)}, []byte{0xf0}, y, rVault, "unlock", a.Bytes()))
+	}
 	return ccm.MsgBytes(ccm.Msg([]byte{0xe0, byte(x), byte(y), byte(k)}, []byte{byte(x), byte(y), byte(k)}, []byte{0xf0}, y, make([]byte, 20), "unlock", []byte{1, 2, 3}))
 }
 
 func main() {
 	r := ev.Start("C21", "model_checking")
-	depth := r.QT(5, 7)
+	depth := r.QT(4, 6)
 	r.Require("import-accepted", "rejected:source-unregistered", "rejected:source-blacklisted", "rejected:target-unregistered",
-		"rejected:target-blacklisted", "rejected:router-not-active", "accepted-after-whitelisting", "non-operator-rejected", "vote-recorded")
+		"rejected:target-blacklisted", "rejected:router-not-active", "accepted-after-whitelisting", "non-operator-rejected", "vote-recorded", "event-log-differential",
+		"accepted:ripple-destination", "rejected:ripple-destination-blacklisted")
 	vals := polyenv.Keys(nVal)
 	polyenv.Setup(config.NETWORK_ID_MAIN_NET, vals)
 	polyenv.InstallHeightLedger()
@@ -126,7 +155,7 @@ func main() {
 	// synthetic state of chain C holding every message C may ever send
 	var cmsgs [][]byte
 	cslot := map[string]int{}
-	for _, y := range []uint64{A, B} {
+	for _, y := range []uint64{A, B, R} {
 		for k := 0; k <= maxK; k++ {
 			cslot[string(msg(C, y, k))] = len(cmsgs)
 			cmsgs = append(cmsgs, msg(C, y, k))
@@ -137,12 +166,26 @@ func main() {
 		A: {ID: A, Router: utils.VOTE_ROUTER, Wait: 1, Name: "A", CCMC: []byte{0xa}},
 		B: {ID: B, Router: utils.VOTE_ROUTER, Wait: 1, Name: "B", CCMC: []byte{0xb}},
 		C: {ID: C, Router: utils.HSC_ROUTER, Wait: 1, Name: "C", CCMC: ccm.HscCCMC(C)},
+		R: {ID: R, Router: utils.RIPPLE_ROUTER, Wait: 1, Name: "R", CCMC: []byte{0xd}, Extra: rippleExtra()},
 	}
 	q := ccm.Quorum(nVal)
 	regTxs := func(x uint64) []*types.Transaction {
 		t := []*types.Transaction{ccm.ApproveTx(x, vals[q-1], uint32(x))}
 		if x == C {
 			t = append(t, ccm.HscGenesisTx(C, cstate.Root, ccm.HscGenesisNumber, uint32(x), polyenv.Multi(vals)))
+		}
+		if x == R { // asset binding by the ripple operator + base fee voted by a quorum (view 0 -> 1)
+			ap := &side_chain_manager.RegisterAssetParam{OperatorAddress: ccm.RippleOperator.Addr, ChainId: R,
+				AssetMap: map[uint64][]byte{R: rVault}, LockProxyMap: map[uint64][]byte{R: rVault}}
+			as := common.NewZeroCopySink(nil)
+			ap.Serialization(as)
+			t = append(t, polyenv.Tx(utils.SideChainManagerContractAddress, side_chain_manager.REGISTER_ASSET, as.Bytes(), uint32(x), polyenv.Single(ccm.RippleOperator)))
+			for i := 0; i < q; i++ {
+				fp := &side_chain_manager.UpdateFeeParam{Address: vals[i].Addr, ChainId: R, View: 0, Fee: big.NewInt(10)}
+				fs := common.NewZeroCopySink(nil)
+				fp.Serialization(fs)
+				t = append(t, polyenv.Tx(utils.SideChainManagerContractAddress, side_chain_manager.UPDATE_FEE, fs.Bytes(), uint32(x), polyenv.Single(vals[i])))
+			}
 		}
 		return t
 	}
@@ -160,12 +203,12 @@ func main() {
 			}
 		}
 	}
-	s1 := state{D: w.Dump(), Reg: map[uint64]bool{A: true, B: true, C: true}, Black: map[uint64]bool{}, K: map[string]int{}}
+	s1 := state{D: w.Dump(), Reg: map[uint64]bool{A: true, B: true, C: true, R: true}, Black: map[uint64]bool{}, K: map[string]int{}}
 	w.Close()
 
 	weak := polyenv.Signer{Keys: vals, M: 2} // 2-of-4: an address different from the operator's 3-of-4
 	pool := ccm.NewWorlds(16)
-	pairs := [][2]uint64{{A, B}, {A, C}, {B, A}, {B, C}, {C, A}, {C, B}}
+	pairs := [][2]uint64{{A, B}, {A, C}, {B, A}, {B, C}, {C, A}, {C, B}, {A, R}, {B, R}, {C, R}}
 	st := mc.BFS(mc.Config[state]{
 		Init: []state{s0, s1}, MaxDepth: depth, Workers: 16, Stop: r.Expired,
 		Key: func(s state) string { return s.key() },
@@ -339,6 +382,9 @@ func main() {
 					switch {
 					case gateAll && released:
 						r.Class("import-accepted")
+						if y == R {
+							r.Class("accepted:ripple-destination")
+						}
 						r.Case("accepted/" + pair + "@" + hs)
 						nx.K[pair] = k + 1
 					case gateAll && !released:
@@ -347,6 +393,9 @@ func main() {
 						nx.K[pair] = k + 1 // already reported above
 					default:
 						r.Class("rejected:" + why)
+						if y == R && why == "target-blacklisted" {
+							r.Class("rejected:ripple-destination-blacklisted")
+						}
 						r.Case("rejected/" + why + "/" + pair + "@" + hs)
 						if last.OK || !lastUnchanged {
 							r.Violation("C21/rejected-import-not-failed-or-left-trace/"+why, det)
@@ -364,6 +413,71 @@ func main() {
 	if st.Truncated {
 		r.Capped(fmt.Sprintf("BFS truncated by deadline in depth %d", st.MaxDepth+1))
 	}
+	// Environment switch --disable-event-log: one canonical history (accepted imports towards every kind of
+	// destination, a blacklisted destination, whitelisting) is executed under EnableEventLog ∈ {true,false}; the
+	// per-tx consensus outcome (ok, write set, cross hashes) must be identical and the gate must behave the same.
+	impTxs := func(x, y uint64, k int) []*types.Transaction {
+		m := msg(x, y, k)
+		if x == C {
+			return []*types.Transaction{ccm.HscImport(C, ccm.HscGenesisNumber, cstate.Proof(cslot[string(m)], false), m, polyenv.Key(700), 9)}
+		}
+		var t []*types.Transaction
+		for i := 0; i < q; i++ {
+			t = append(t, ccm.VoteImport(x, 50, m, vals[i], 9))
+		}
+		return t
+	}
+	type hstep struct {
+		name   string
+		txs    []*types.Transaction
+		accept int // 1 accepted import, 0 rejected import, -1 not an import
+	}
+	hist := []hstep{
+		{"A>B", impTxs(A, B, 0), 1}, {"C>A", impTxs(C, A, 0), 1}, {"A>R", impTxs(A, R, 0), 1}, {"C>R", impTxs(C, R, 0), 1},
+		{"black B", []*types.Transaction{ccm.BlackTx(B, false, 5, polyenv.Multi(vals))}, -1},
+		{"black R", []*types.Transaction{ccm.BlackTx(R, false, 5, polyenv.Multi(vals))}, -1},
+		{"A>B (B black)", impTxs(A, B, 1), 0}, {"B>R (R black)", impTxs(B, R, 0), 0}, {"C>R (R black)", impTxs(C, R, 1), 0},
+		{"white R", []*types.Transaction{ccm.BlackTx(R, true, 6, polyenv.Multi(vals))}, -1},
+		{"A>R (R white again)", impTxs(A, R, 1), 1},
+	}
+	dig := map[string]string{}
+	for _, evlog := range []bool{true, false} {
+		config.DefConfig.Common.EnableEventLog = evlog
+		pool.With(s1.D, func(w *ccm.W) {
+			for _, hs := range hist {
+				released := false
+				var last polyenv.Result
+				for i, tx := range hs.txs {
+					before := w.Dump()
+					res := w.Exec(tx, late, 1000)
+					after := w.Dump()
+					r.Eval()
+					last = res
+					if res.OK && ccm.CountPrefix(after, ccm.DonePrefix()) != ccm.CountPrefix(before, ccm.DonePrefix()) {
+						released = true
+					}
+					k := fmt.Sprintf("%s/%d", hs.name, i)
+					d := fmt.Sprintf("%v|%x|%q", res.OK, res.CrossHashes, res.WriteSet)
+					if prev, ok := dig[k]; ok && prev != d {
+						r.Violation("C21/result-depends-on-event-log-switch", map[string]any{"step": hs.name, "tx_index": i, "event_log": evlog})
+					}
+					dig[k] = d
+				}
+				det := map[string]any{"step": hs.name, "event_log": evlog, "last_tx_ok": last.OK, "last_tx_err": fmt.Sprint(last.Err)}
+				if hs.accept == 1 && !released {
+					r.Violation("C21/eventlog-history/valid-import-rejected", det)
+				}
+				if hs.accept == 0 && (released || last.OK) {
+					r.Violation("C21/eventlog-history/import-accepted-through-closed-gate", det)
+				}
+				if hs.accept == -1 && !last.OK {
+					r.HarnessError("event-log history step %s failed: %v", hs.name, last.Err)
+				}
+			}
+		})
+	}
+	config.DefConfig.Common.EnableEventLog = true
+	r.Class("event-log-differential")
 	r.Assume("side chains are registered through the real registerSideChain/approveRegisterSideChain path; the initial state holds the applications with quorum-1 approvals so that one approval decides",
 		"a vote below the quorum on an import whose source side passes the gate is legitimately recorded; target-side conditions are only evaluated by the quorum-completing transaction",
 		"HSC genesis header and MPT state of chain C are synthetic (lib/ccm/hsc.go)")
